@@ -8,7 +8,8 @@ EXPLANATION = ("Static rules over quinn-proto MIR: (a) NO-REACH: from every exte
                "SysRng when no seed is configured; every random draw in the core takes its generator from a `rng` field/parameter seeded from the endpoint; (b) inventory of "
                "clock/entropy uses behind component boundaries (BBR's thread-RNG seeding is a known finding); (c) timer servicing: handle_timeout acts on a timer only past "
                "is_expired and stops it before the arm runs; poll_timeout is the minimum over the table; (d) a drained connection is silent: poll_transmit returns None under "
-               "Drained before building anything, every site that makes the connection Drained also leaves no Close timer armed, and packets are ignored; (e) no iteration "
+               "Drained before building anything, every site that makes the connection Drained also leaves no Close timer armed, and packets are ignored: handle_packet entered while Draining / Drained reaches no store to or &mut borrow of the "
+               "connection (counters excepted; CFG walk pruned by the State variant), and no site arming Timer::PushNewCid can execute while the state is Closed / Draining / Drained; (e) no iteration "
                "over a RandomState-hashed map/set in the core; (f) instants stored or armed derive from `now` inputs (or stored instants) and only through add/sub/compare. "
                "Equality of traces between runs is NOT decided.")
 RULE = "rule instances = (root, leaf) reachability queries, call sites, branches; non-trivial = bound to a real function / site"
@@ -188,7 +189,7 @@ def _det_hasher(h):
     return path.split('::')[-1] in DET_HASHERS
 
 
-_CLOCKY = {}
+_CLOCKY = __import__('engine.facts', fromlist=['register_memo']).register_memo({})
 
 
 def _clock_reachers(F):
@@ -265,7 +266,7 @@ def _stop_all_sites(F, body, depth=2):
     return res
 
 
-_ARMERS = {}
+_ARMERS = __import__('engine.facts', fromlist=['register_memo']).register_memo({})
 
 
 def _timer_arg_may_be(d, name):
@@ -653,6 +654,333 @@ def rule_d(ctx):
     okk = bool(sa) and path_avoiding(k, [0], k.return_blocks(), sa) is None
     ctx.check(okk, 'd', 'kill_stops_all_timers', k, k.where(), 'close_common(): for &timer in &Timer::VALUES { self.timers.stop(timer) }',
               'kill leaves timers armed on a drained connection (no loop over Timer::VALUES stopping each element on every path: %s)' % ('a path avoids it' if sa else 'none found in kill or its callees'))
+    _closed_connection_is_inert(ctx)
+
+
+# --------------------------------------------------------------------------
+# (d, continued) what a function does when it is ENTERED with the connection in a given State variant
+# --------------------------------------------------------------------------
+
+STATE_ADT = 'quinn_proto::connection::State'
+CONN_ADT = 'quinn_proto::connection::Connection'
+# fields of Connection that are pure bookkeeping: never read by the state machine, never part of its output
+COUNTER_FIELDS = ('stats',)
+
+
+def _strip_ref(ty):
+    t = ty.strip()
+    while t.startswith('&'):
+        t = t[1:].strip()
+        if t.startswith("'"):
+            t = t.split(' ', 1)[1].strip() if ' ' in t else t
+        if t.startswith('mut '):
+            t = t[4:].strip()
+    return t
+
+
+def _conn_param(body):
+    """index of the parameter that is (a reference to) the Connection; None when there is none (closures, helpers)"""
+    hits = [i for i in range(1, body.argc + 1) if body.locals[i][0].strip().startswith('&') and _strip_ref(body.locals[i][0]).split('<')[0].endswith('connection::Connection')]
+    return hits[0] if len(hits) == 1 else None
+
+
+def _conn_state_field(F):
+    """name of the field of Connection that holds the connection::State (by type, not by name)"""
+    fs = [f[0] for f in F.adt(CONN_ADT)['variants'][0]['fields'] if f[1].split('<')[0].endswith('connection::State')]
+    if len(fs) != 1:
+        raise CheckBroken('Connection has %d fields of type connection::State' % len(fs))
+    return fs[0]
+
+
+_VPRED = __import__('engine.facts', fromlist=['register_memo']).register_memo({})
+
+
+def _variant_pred(F, fid):
+    """{discriminant: bool} when `fid` is a crate-local `fn(&State) -> bool` whose result is decided by the variant alone
+    (`matches!(*self, ..)`, `match self { .. => true, .. }`): evaluated per variant by following the CFG; None otherwise."""
+    k = (F.uid, fid)
+    if k in _VPRED:
+        return _VPRED[k]
+    _VPRED[k] = None
+    b = F.bodies.get(fid)
+    if b is None or b.kind != 'fn' or b.crate != 'quinn_proto' or b.argc != 1 or b.locals[0][0] != 'bool' \
+            or not _strip_ref(b.locals[1][0]).split('<')[0].endswith('connection::State'):
+        return None
+    brs = {br.bb: br for br in branches(F, b)}
+    res = {}
+    for var in F.adt(STATE_ADT)['variants']:
+        v = int(var['discr'])
+        cur, val = 0, None
+        for _ in range(64):
+            blk = b.blocks[cur]
+            for st in blk['s']:
+                if st[0] == '=' and st[1][0] == 0:
+                    if not st[1][1] and st[2][0] == 'use' and st[2][1][0] == 'k' and st[2][1][1] == 'int':
+                        val = int(st[2][1][2])
+                    else:
+                        return None
+                elif st[0] == 'sd':
+                    return None
+            t = blk['t']
+            if t[0] == 'ret':
+                break
+            if t[0] == 'switch':
+                br = brs.get(cur)
+                if br is None or br.desc != ('discr', ('param', 1, b.locals[1][1])):
+                    return None
+                cur = br.target(v)
+            elif t[0] == 'goto' and len(b.succ[cur]) == 1:
+                cur = b.succ[cur][0]
+            else:
+                return None          # a call, an assert ...: not a pure predicate on the variant
+        else:
+            return None
+        if val is None:
+            return None
+        res[v] = bool(val)
+    _VPRED[k] = res
+    return res
+
+
+def _state_pred(F, d, selfi, sf):
+    """{discriminant: bool} when the (Not-peeled) bool descriptor d is a variant predicate applied to `<conn param>.state`:
+    `State::is_x(self.state)`, or a one-line `&Connection` wrapper of it (`self.is_closed()`, `self.is_handshaking()`)."""
+    if not (isinstance(d, tuple) and d[0] == 'call' and len(d) > 3 and len(d[3]) == 1 and d[2] in F.bodies):
+        return None
+    a = d[3][0]
+    if isinstance(a, tuple) and a[0] == 'field' and a[2] == sf and isinstance(a[1], tuple) and a[1][0] == 'param' and a[1][1] == selfi:
+        return _variant_pred(F, d[2])
+    if isinstance(a, tuple) and a[0] == 'param' and a[1] == selfi:
+        g = F.bodies[d[2]]
+        if g.kind == 'fn' and g.crate == 'quinn_proto' and g.argc == 1 and _conn_param(g) == 1 and not g.locals[1][0].strip().startswith('&mut'):
+            alts = [x for _, r in ret_descs(F, g) for x in flat(r)]
+            if len(alts) == 1:
+                inner, neg = peel_not(alts[0])
+                p = _state_pred(F, inner, 1, sf) if inner[0] == 'call' and inner[3] and inner[3][0][0] == 'field' else None
+                if p is not None:
+                    return {v: (not x if neg else x) for v, x in p.items()}
+    return None
+
+
+def _place_class(pl, selfi, sf):
+    """how a place relates to the connection: None (not through the connection parameter), 'state' (the whole connection or
+    its state field), 'counter' (a bookkeeping field), else the name of the first field"""
+    if pl[0] != selfi:
+        return None
+    proj = [e for e in pl[1] if e != '*']
+    if not proj:
+        return 'state'
+    e = proj[0]
+    if not (isinstance(e, list) and e[0] == 'f'):
+        return 'state'
+    if e[1] == sf:
+        return 'state'
+    return 'counter' if e[1] in COUNTER_FIELDS else e[1]
+
+
+_SELFX = __import__('engine.facts', fromlist=['register_memo']).register_memo({})
+
+
+def _self_effects(F, body, selfi, sf):
+    """(E, M): E = {block: text} of the blocks of `body` that change the connection — a store into `<conn>.f..`, a `&mut`
+    borrow of the connection or of one of its fields, the connection reference itself handed on (call argument, copy,
+    closure capture) — bookkeeping fields excepted; M ⊆ E = the blocks after which `<conn>.state` may have a new value
+    (store to / `&mut` of the state field or of the whole connection)."""
+    k = (F.uid, body.id, selfi)
+    if k in _SELFX:
+        return _SELFX[k]
+    E, M = {}, set()
+
+    def hit(bb, cls, text):
+        if cls is None or cls == 'counter':
+            return
+        E.setdefault(bb, text)
+        if cls == 'state':
+            M.add(bb)
+    live = body.live_blocks()
+    for i, j, s in body.stmts():
+        if i not in live:
+            continue
+        if s[0] == 'sd':
+            hit(i, _place_class(s[1], selfi, sf), 'store to the connection at L%s' % s[3])
+            continue
+        if s[0] != '=':
+            continue
+        pl, rv, line = s[1], s[2], s[3]
+        if pl[1]:
+            hit(i, _place_class(pl, selfi, sf), 'store to self.%s at L%s' % (_place_class(pl, selfi, sf), line))
+        if rv[0] == 'ref' and rv[1]:
+            cls = _place_class(rv[2], selfi, sf)
+            hit(i, cls, '&mut self%s at L%s' % ('.' + str(cls) if [e for e in rv[2][1] if e != '*'] else '', line))
+        elif rv[0] == 'ptr' and 'Mut' in str(rv[1]):
+            hit(i, _place_class(rv[2], selfi, sf), 'raw mutable pointer into the connection at L%s' % line)
+        elif rv[0] == 'use' and rv[1][0] in ('c', 'm') and rv[1][1][0] == selfi and not rv[1][1][1] and body.locals[selfi][0].strip().startswith('&mut'):
+            hit(i, 'state', 'the connection reference is handed on at L%s' % line)
+        elif rv[0] == 'agg' and body.locals[selfi][0].strip().startswith('&mut'):
+            if any(o[0] in ('c', 'm') and o[1][0] == selfi and not o[1][1] for o in rv[2]):
+                hit(i, 'state', 'the connection reference is captured at L%s' % line)
+    for c in body.calls():
+        if c.bb not in live:
+            continue
+        if c.dst and c.dst[1]:
+            hit(c.bb, _place_class(c.dst, selfi, sf), 'call result stored into the connection at L%s' % c.line)
+        if body.locals[selfi][0].strip().startswith('&mut') and any(a[0] in ('c', 'm') and a[1][0] == selfi and not a[1][1] for a in c.args):
+            hit(c.bb, 'state', '%s(self, ..) at L%s' % (short(c.f), c.line))
+    _SELFX[k] = (E, M)
+    return E, M
+
+
+def _const_thread(body, a, s, avoid=()):
+    """(target, blocks passed) when block `a` ends by assigning constants to locals and the blocks from its successor `s`
+    onwards only copy / negate such locals (plain gotos, at most 4 blocks) until one switches on one of them — a materialised
+    `x || y` / `matches!` / inlined predicate bound to a variable: the only successor of that switch that can follow `a`.
+    None when not determined.  (Body.succ threads the copy-free form only.)"""
+    if body.blocks[a]['t'][0] != 'goto':
+        return None
+    env = {}
+
+    def step(stmts):
+        for st in stmts:
+            if st[0] == 'sd':
+                env.pop(st[1][0], None)
+            elif st[0] == '=':
+                L, rv = st[1][0], st[2]
+                if st[1][1]:
+                    if L in env:
+                        env.pop(L)
+                    continue
+                if rv[0] == 'use' and rv[1][0] == 'k' and rv[1][1] == 'int':
+                    env[L] = int(rv[1][2])
+                elif rv[0] == 'use' and rv[1][0] in ('c', 'm') and not rv[1][1][1] and rv[1][1][0] in env:
+                    env[L] = env[rv[1][1][0]]
+                elif rv[0] == 'un' and rv[1] == 'Not' and rv[2][0] in ('c', 'm') and not rv[2][1][1] and env.get(rv[2][1][0]) in (0, 1) and body.locals[L][0] == 'bool':
+                    env[L] = 1 - env[rv[2][1][0]]
+                else:
+                    env.pop(L, None)
+    step(body.blocks[a]['s'])
+    passed = []
+    cur = s
+    for _ in range(4):
+        if not env or cur in avoid or cur == a or cur in passed:
+            return None
+        blk = body.blocks[cur]
+        step(blk['s'])
+        passed.append(cur)
+        t = blk['t']
+        if t[0] == 'switch':
+            if t[1][0] not in ('c', 'm') or t[1][1][1] or t[1][1][0] not in env:
+                return None
+            val = env[t[1][1][0]]
+            tgt = t[3]
+            for x, y in t[2]:
+                if int(x) == val:
+                    tgt = y
+            return (tgt, passed) if tgt in body.succ[cur] else None
+        if t[0] != 'goto' or len(body.succ[cur]) != 1:
+            return None
+        cur = body.succ[cur][0]
+    return None
+
+
+def _reach_in_state(F, body, v, selfi, sf):
+    """blocks of `body` that can execute when it is entered with `<conn>.state` in the variant with discriminant v: CFG
+    reachability in which a branch on `discr(<conn>.state)` or on a variant predicate of it only takes the edge of v — for
+    as long as nothing on the path may have changed the state (blocks M of _self_effects); from there on every edge is
+    taken.  Returns (reached blocks, blocks reached while the state is still known to be v)."""
+    E, M = _self_effects(F, body, selfi, sf)
+    brs = {br.bb: br for br in branches(F, body)}
+    sdesc = ('field', ('param', selfi, body.locals[selfi][1]), sf)
+    seen, passed = set(), set()
+    stack = [(0, True)]
+    while stack:
+        bb, known = stack.pop()
+        if (bb, known) in seen:
+            continue
+        seen.add((bb, known))
+        k2 = known and bb not in M
+        succ = list(body.succ[bb])
+        br = brs.get(bb)
+        if k2 and br is not None:
+            if br.desc[0] == 'discr' and br.desc[1] == sdesc:
+                t = br.target(v)
+                succ = [t] if t in succ else succ
+            else:
+                inner, neg = peel_not(br.desc)
+                p = _state_pred(F, inner, selfi, sf)
+                if p is not None and v in p:
+                    t = br.target(1 if (p[v] != neg) else 0)
+                    succ = [t] if t in succ else succ
+        for s in succ:
+            t = _const_thread(body, bb, s, E)
+            if t is not None:
+                passed.update(t[1])      # the copies execute, the switch has one outcome after `bb`
+                s = t[0]
+            if (s, k2) not in seen:
+                stack.append((s, k2))
+    return {b for b, _ in seen} | passed, {b for b, k in seen if k}
+
+
+def _closed_connection_is_inert(ctx):
+    """a connection that is over stays over (467a010): (1) handle_packet entered while Draining / Drained changes nothing of
+    the connection but counters; (2) no site arming Timer::PushNewCid executes while the state is Closed / Draining / Drained"""
+    F = ctx.facts
+    sf = _conn_state_field(F)
+    disc = {v['name']: int(v['discr']) for v in F.adt(STATE_ADT)['variants']}
+    hp = ctx.pfn('Connection::handle_packet')
+    si = _conn_param(hp)
+    if si is None:
+        ctx.bad('d', 'packet_changes_nothing_when_draining', hp, hp.where(), 'handle_packet no longer takes the connection by reference: the obligation cannot be stated')
+    else:
+        E, M = _self_effects(F, hp, si, sf)
+        # non-vacuity: entered Established, the same walk does reach the packet processing (otherwise the walk proves nothing)
+        work = [c.bb for c in hp.calls() if c.bb in hp.live_blocks() and not is_noise(c) and c.k == 'item' and c.f in F.bodies and F.bodies[c.f].crate == 'quinn_proto'
+                and c.bb in M]
+        r_est, _ = _reach_in_state(F, hp, disc['Established'], si, sf)
+        ctx.floor('d', 'connection_changing_calls_of_handle_packet_when_established', len([b for b in work if b in r_est]), 3)
+        for name in ('Draining', 'Drained'):
+            r, _ = _reach_in_state(F, hp, disc[name], si, sf)
+            bad = sorted(b for b in r if b in E)
+            first = [b for b in bad if path_avoiding(hp, [0], [b], set(bad) - {b}) is not None] or bad
+            ctx.check(not bad, 'd', 'packet_changes_nothing_when_draining', hp, hp.where(),
+                      'entered with state %s, handle_packet reaches no store to / &mut borrow of the connection (counters excepted): %d of %d blocks reachable' % (name, len(r), len(hp.live_blocks())),
+                      'a datagram delivered to a connection in state %s still acts on it (%s): the close reason, the state (back to Closed, `close = true` => a new CONNECTION_CLOSE) or the timers of a connection '
+                      'that is over can change, so a drained connection produces further output' % (name, '; '.join(E[b] for b in first[:3])), site_class=name)
+    # (2) Timer::PushNewCid
+    closed = ('Closed', 'Draining', 'Drained')
+    sets = [c for c in F.callers_of('TimerTable::set', crate='quinn_proto') if F.root_of(c.body).short != 'TimerTable::set' and c.bb in c.body.live_blocks()
+            and len(c.args) >= 2 and _timer_arg_may_be(arg_desc(F, c, 1), 'PushNewCid')]
+    ctx.floor('d', 'push_new_cid_arming_sites', len(sets), 1)
+
+    def exposed(body, bb, v, depth):
+        """None when block bb of body cannot execute in a connection whose state is v (at entry of body, or of every caller
+        chain up to `depth`); else the chain of functions through which it can"""
+        i = _conn_param(body)
+        if i is None:
+            return [body.short + ' (no connection parameter: cannot be decided)']
+        r, _ = _reach_in_state(F, body, v, i, sf)
+        if bb not in r:
+            return None
+        if body.kind != 'fn' or body.reach or depth == 0:
+            return [body.short]
+        callers = [c for c in F.callers_of(body.id, crate='quinn_proto') if c.f == body.id and c.bb in c.body.live_blocks()]
+        if not callers:
+            return [body.short]
+        for c in callers:
+            # the callee sees the caller's state only if the connection handed over is the caller's own
+            sub = exposed(c.body, c.bb, v, depth - 1)
+            if sub is not None:
+                return [body.short] + sub
+        return None
+    for c in sets:
+        r = F.root_of(c.body)
+        chains = []
+        for n in closed:
+            ch = exposed(c.body, c.bb, disc[n], 2)
+            if ch is not None:
+                chains.append('%s via %s' % (n, ' <- '.join(ch)))
+        ctx.check(not chains, 'd', 'no_cid_timer_on_closed_connection', r, c.where(), 'timers.set(Timer::PushNewCid, ..) cannot execute while the state is Closed / Draining / Drained',
+                  'Timer::PushNewCid can be armed on a closed connection (%s): close_common has already stopped every timer, so this one outlives the Close timer and a drained connection '
+                  'still reports a deadline from poll_timeout and asks for identifiers when it is serviced' % '; '.join(chains))
 
 
 def rule_e(ctx):
